@@ -84,7 +84,11 @@ class C11:
         faults = {'F1': rng.random() < 0.5}
         pool = []
         protos = []
-        for _ in range(rng.randint(2, 6)):
+        # 'many' mode: (almost) every site gets its own prior, so that models
+        # with 11+ parameters (two-digit placeholders) and ties among them
+        # are explored
+        many = rng.random() < 0.3
+        for _ in range(rng.randint(2, 6) if not many else rng.randint(12, 20)):
             proto = rng.choice(protos) if protos and rng.random() < 0.45 \
                 else None
             op, args = draw_pool_prior(rng, proto)
@@ -93,19 +97,33 @@ class C11:
         # ---- scatterer
         kind = rng.choice(['sphere', 'sphere', 'layered', 'spheres',
                            'spheres'])
+        if many:
+            kind = 'spheres'
+            fresh = list(pool)
+            rng.shuffle(fresh)
+            _sv = self.site_value
+
+            def site_value_many(rng_, pool_, fixed, allow_complex=False,
+                                positive=False):
+                if fresh and rng_.random() < 0.85:
+                    return fresh.pop()
+                return _sv(rng_, pool_, fixed, allow_complex, positive)
+            self_site = site_value_many
+        else:
+            self_site = self.site_value
 
         def sphere_args(layers=1):
             if layers == 1:
-                return {'n': self.site_value(rng, pool, 1.59, True),
-                        'r': self.site_value(rng, pool, 0.5, positive=True),
-                        'center': [self.site_value(rng, pool, v)
+                return {'n': self_site(rng, pool, 1.59, True),
+                        'r': self_site(rng, pool, 0.5, positive=True),
+                        'center': [self_site(rng, pool, v)
                                    for v in (1.0, 2.0, 10.0)]}
-            return {'n': [self.site_value(rng, pool, 1.4 + 0.1 * i, True)
+            return {'n': [self_site(rng, pool, 1.4 + 0.1 * i, True)
                           for i in range(layers)],
-                    'r': [self.site_value(rng, pool, 0.3 * (i + 1),
-                                          positive=True)
+                    'r': [self_site(rng, pool, 0.3 * (i + 1),
+                                    positive=True)
                           for i in range(layers)],
-                    'center': [self.site_value(rng, pool, v)
+                    'center': [self_site(rng, pool, v)
                                for v in (1.0, 2.0, 10.0)]}
         if kind == 'sphere':
             sc = b.emit('sphere', sphere_args(), store='sc')
@@ -113,7 +131,9 @@ class C11:
             sc = b.emit('sphere', sphere_args(rng.randint(2, 3)), store='sc')
         else:
             members = [{'op': 'sphere', 'args': sphere_args(
-                rng.choice([1, 1, 2]))} for _ in range(rng.randint(1, 4))]
+                rng.choice([1, 1, 2]))}
+                for _ in range(rng.randint(1, 4) if not many
+                               else rng.randint(3, 4))]
             sc = b.emit('spheres', {'members': members, 'warn': False},
                         store='sc')
         # ---- model.  Sharing is promised between places of the scatterer
@@ -160,7 +180,7 @@ class C11:
                        tags={'k': 'probe', 'probe': True})
             elif c < 0.55:
                 k = rng.choice([1, 2, 2, 2, 3, 4, 5])
-                idx = rng.sample(range(12), k)
+                idx = rng.sample(range(24), k)
                 args = {'mo': mo, 'idx': idx}
                 if rng.random() < 0.4:
                     ntie += 1
@@ -524,14 +544,40 @@ class C11:
         ndefs = {i: tuple(p['defs'][i]) for i in unknown}
         cands = {i: [pid for pid in sc_ids if pdefs[pid] == ndefs[i]]
                  for i in unknown}
+        # 1. sites that are a bare prior pin its parameter directly (the
+        #    probe values are pairwise distinct)
+        fixed = {}
+
+        def pin(expr, value):
+            if isinstance(expr, dict) and 'ref' in expr and \
+                    expr['ref'] in sc_ids:
+                for i in unknown:
+                    if expr['ref'] in cands[i] and _close(value, vec[i]):
+                        fixed.setdefault(expr['ref'], i)
+                        return
+            elif isinstance(expr, list):
+                v = _plainval(value)
+                if isinstance(v, list) and len(v) == len(expr):
+                    for e_, v_ in zip(expr, v):
+                        pin(e_, v_)
+        for key, expr in sites.items():
+            if key in got:
+                pin(expr, got[key])
+        used_idx = set(fixed.values())
+        if len(used_idx) != len(fixed):
+            return None
+        rest_ids = [pid for pid in sc_ids if pid not in fixed]
+        rest_idx = [i for i in unknown if i not in used_idx]
+        # 2. priors that occur only inside expressions: small search
         tried = 0
-        for combo in itertools.product(*[cands[i] for i in unknown]):
-            if len(set(combo)) != len(combo):
-                continue
+        for combo in itertools.permutations(rest_idx, len(rest_ids)):
             tried += 1
             if tried > 5000:
                 break
-            env = {pid: vec[i] for i, pid in zip(unknown, combo)}
+            if any(pid not in cands[i] for pid, i in zip(rest_ids, combo)):
+                continue
+            env = {pid: vec[i] for pid, i in fixed.items()}
+            env.update({pid: vec[i] for pid, i in zip(rest_ids, combo)})
             ok = True
             for key, expr in sites.items():
                 try:
@@ -544,7 +590,9 @@ class C11:
                     ok = False
                     break
             if ok:
-                return {i: pid for i, pid in zip(unknown, combo)}
+                out = {i: pid for pid, i in fixed.items()}
+                out.update({i: pid for pid, i in zip(rest_ids, combo)})
+                return out
         return None
 
     @staticmethod
